@@ -247,9 +247,20 @@ func checkC44(env *kernel.Env) {
 			only, only2 = v.name, v.partner
 			val := c44GenValue(T, v)
 			scope := []string{"SESSION", "GLOBAL", ""}[T.Draw(3)] // "" = session by default
-			q := fmt.Sprintf("SET %s %s = %s", scope, v.name, val.lit)
+			// system variable names are case-insensitive: spell the name in some case,
+			// and sometimes use the @@scope.name form
+			spelled := v.name
+			switch T.Draw(4) {
+			case 1:
+				spelled = strings.ToUpper(v.name)
+			case 2:
+				spelled = strings.ToUpper(v.name[:1]) + v.name[1:]
+			}
+			q := fmt.Sprintf("SET %s %s = %s", scope, spelled, val.lit)
 			if scope == "" {
-				q = fmt.Sprintf("SET %s = %s", v.name, val.lit)
+				q = fmt.Sprintf("SET %s = %s", spelled, val.lit)
+			} else if T.Bool(1, 4) {
+				q = fmt.Sprintf("SET @@%s.%s = %s", scope, spelled, val.lit)
 			}
 			r := x.s.Exec(q)
 			env.Kind(fmt.Sprintf("set:%s:%v", strings.ToLower(scope), r.Err == nil))
